@@ -12,10 +12,12 @@ CONSTANTS
   PreT <- MCPreT
   TracerOf <- MCTracerOf
   XKinds <- MCXKinds
+  Script <- MCScript
+  Kept <- MCKept
   RecsPer = @RECSPER@
   SpansPer = @SPANSPER@
   UsesPer = @USESPER@
   Patched = @PATCHED@
   AllowKnown = @ALLOWKNOWN@
-INVARIANTS Contract RegisteredAtMostOnce CallbackConnected InstConnected TracerConnected LockSanity Stuck
+INVARIANTS Contract RegisteredAtMostOnce CallbackConnected InstConnected TracerConnected OnceOnlyByReal OneDelegate LockSanity Stuck
 CHECK_DEADLOCK FALSE
